@@ -22,7 +22,7 @@ EXPLANATION = (
     "by blockdims_from_blockshape); R16.3 PASS: every normal return also passes a refusal of negative sizes placed after the "
     "-1 / None placeholder substitution (without it `(-2,)` was normalised to ((-1,),) and ((-1, 6),) accepted for an axis of 5 - "
     "repaired in /repo). The sums, the byte limit of 'auto' axes and the uniform-size clause are integer arithmetic and "
-    "are not decided."
+    "are not decided, except R16.4 FLOW: inside auto_chunks every per-axis element of `chunks` that is used as a value (the fixed axes feeding `largest_block`, the budget the 'auto' axes are sized against) is used as the number it is or under max() / sorted()[-1] - a positional pick (`cs[0]`), min() or any other aggregate is not an upper bound of the blocks of that axis and lets 'auto' blocks exceed the limit for layouts whose largest block sits elsewhere."
 )
 ASSUMPTIONS = ["blockdims_from_blockshape builds a tiling of the shape from integer sizes (arithmetic, not decided)"]
 TRUSTED = ["CPython ast", "sa.cfg must-pass-through", "sa.refguards (negation-normal-form conjunct fingerprints)", "reviewed reference table fixtures/ref_guards.json"]
@@ -145,7 +145,115 @@ def r16_3(ctx):
     return rr
 
 
-RULES = [r16_1, r16_2, r16_3]
+_UPPER = {"max", "np.max", "np.amax", "numpy.max", "numpy.amax"}
+
+
+def _elem_bindings(fn, pname):
+    """(loop variable, scope nodes, anchor node) for every comprehension / for loop of *fn* that iterates the elements of
+    parameter *pname* (directly or through ``enumerate``) and uses the element outside of tests."""
+    out = []
+
+    def elem_target(target, it):
+        if isinstance(it, ast.Name) and it.id == pname and isinstance(target, ast.Name):
+            return target.id
+        if isinstance(it, ast.Call) and dotted(it.func) == "enumerate" and it.args and isinstance(it.args[0], ast.Name) and it.args[0].id == pname:
+            if isinstance(target, ast.Tuple) and len(target.elts) == 2 and isinstance(target.elts[1], ast.Name):
+                return target.elts[1].id
+        return None
+
+    for n in body_walk(fn.node):
+        if isinstance(n, (ast.GeneratorExp, ast.ListComp, ast.SetComp)):
+            for g in n.generators:
+                v = elem_target(g.target, g.iter)
+                if v:
+                    out.append((v, [n.elt], n))
+        elif isinstance(n, ast.DictComp):
+            for g in n.generators:
+                v = elem_target(g.target, g.iter)
+                if v:
+                    out.append((v, [n.key, n.value], n))
+        elif isinstance(n, ast.For):
+            v = elem_target(n.target, n.iter)
+            if v:
+                out.append((v, list(n.body), n))
+    return out
+
+
+def _size_uses(v, scope, mod, depth=0):
+    """Classify every value use of the per-axis element *v* inside *scope* (tests, comparisons and isinstance dispatch are
+    not value uses).  Yields (node, kind, text): kind 'scalar' (the element itself, the arm of a Number dispatch), 'upper'
+    (under max / sorted(...)[-1]) or 'other'."""
+    parents = {}
+    for root in scope:
+        for p in ast.walk(root):
+            for c in ast.iter_child_nodes(p):
+                parents[c] = p
+    for root in scope:
+        for n in ast.walk(root):
+            if not (isinstance(n, ast.Name) and n.id == v and isinstance(n.ctx, ast.Load)):
+                continue
+            # climb: is the use inside a test / comparison / isinstance?
+            c, skip = n, False
+            while c in parents:
+                p = parents[c]
+                if isinstance(p, (ast.If, ast.IfExp, ast.While)) and p.test is c:
+                    skip = True
+                    break
+                if isinstance(p, ast.Compare) or (isinstance(p, ast.Call) and dotted(p.func) in ("isinstance", "len", "type")):
+                    skip = True
+                    break
+                c = p
+            if skip:
+                continue
+            p = parents.get(n)
+            if isinstance(p, ast.Call) and n in p.args:
+                name = dotted(p.func) or ""
+                if name in _UPPER:
+                    yield n, "upper", unparse(p)
+                    continue
+                if name == "sorted" and len(p.args) == 1 and not p.keywords:
+                    pp = parents.get(p)
+                    if isinstance(pp, ast.Subscript) and unparse(pp.slice) == "-1":
+                        yield n, "upper", unparse(pp)
+                        continue
+                h = mod.functions.get(name)
+                if h is not None and depth < 2:
+                    params = [a.arg for a in h.node.args.args]
+                    i = p.args.index(n)
+                    if i < len(params):
+                        sub = list(_size_uses(params[i], list(h.node.body), mod, depth + 1))
+                        if sub and all(k != "other" for _, k, _ in sub):
+                            yield n, "upper" if any(k == "upper" for _, k, _ in sub) else "scalar", unparse(p)
+                            continue
+                yield n, "other", unparse(p)
+                continue
+            if isinstance(p, (ast.Subscript, ast.Starred, ast.Attribute)):
+                yield n, "other", unparse(parents.get(p, p) if isinstance(p, ast.Starred) else p)
+                continue
+            yield n, "scalar", unparse(p) if p is not None else v
+
+
+def r16_4(ctx):
+    rr = RuleResult("R16.4", "FLOW", "the fixed axes enter auto_chunks' byte budget through an upper bound of their blocks: a tuple of sizes only under max()", min_instances=1)
+    mod = ctx.repo.mod("dask_array._core_utils")
+    f = mod.functions.get("auto_chunks")
+    need(f is not None, "dask_array/_core_utils.py::auto_chunks")
+    pname = f.node.args.args[0].arg
+    seen = 0
+    for v, scope, anchor in _elem_bindings(f, pname):
+        uses = list(_size_uses(v, scope, mod))
+        if not uses:
+            continue
+        seen += 1
+        rr.inst(site(f, anchor)[:150], element=v, uses=[f"{k}: {t[:80]}" for _, k, t in uses])
+        for n, k, t in uses:
+            if k == "other":
+                ctx.finding(rr, site(f, anchor)[:150], f"a fixed axis given as a tuple of block sizes enters the size budget of the 'auto' axes as `{t[:80]}`, which is not an upper bound of its blocks (accepted: the size itself when it is a number, max(sizes), sorted(sizes)[-1]): for a layout whose largest block is elsewhere the 'auto' axes come out larger than the byte limit allows although the fixed axes alone fit", func=f, node=n)
+    need(seen, "an aggregation over the fixed axes of `chunks` in auto_chunks (largest_block)")
+    return rr
+
+
+RULES = [r16_1, r16_2, r16_3, r16_4]
 
 LEVEL_TEXT = (
     "Static decision of one clause of C16: invalid chunk specifications are refused (reference fingerprints of the 18 refusal "
